@@ -405,3 +405,48 @@ def seg_elems(segs, loops=(), guards=()):
             yield from seg_elems(s[3], loops, guards + (norm_guard(s[1], False),))
         else:
             yield s[0], s, loops, guards
+
+
+
+def exists_form(I: Interp, g, tree):
+    """(iterated term, loop id, predicate on ('elem', id)) when condition ``g`` means "some element of the iterated
+    collection satisfies the predicate": ``x in (f(e) for e in xs)`` / ``any(p(e) for e in xs)`` / a helper that scans
+    ``for e in xs: if p(e): return True`` and returns False otherwise.  None when g has no such reading."""
+    from .absint import TRUE, FALSE
+    if g[0] == "cond" and g[2] == TRUE and g[3] == FALSE:
+        g = g[1]
+    if g[0] == "cmp" and g[1] == "In":
+        coll = g[3]
+        segs = list_content(I, coll, tree) if isinstance(I.obj(coll), HList) else []
+        if len(segs) == 1 and segs[0][0] == "loop" and len(segs[0][2]) == 1 and segs[0][2][0][0] == "e":
+            lid = segs[0][1]
+            li = I.loops[lid]
+            if not li.get("conds"):
+                return li.get("iter"), lid, ("cmp", "Eq", segs[0][2][0][1], g[2])
+        return None
+    if g[0] == "call" and g[1] == "any" and len(g[2]) == 1:
+        coll = g[2][0]
+        segs = list_content(I, coll, tree) if isinstance(I.obj(coll), HList) else []
+        if len(segs) == 1 and segs[0][0] == "loop" and len(segs[0][2]) == 1 and segs[0][2][0][0] == "e":
+            lid = segs[0][1]
+            li = I.loops[lid]
+            if not li.get("conds"):
+                return li.get("iter"), lid, segs[0][2][0][1]
+        return None
+    if g[0] == "loopret":
+        lid = g[1]
+        li = I.loops.get(lid, {})
+        node = next((n for n, c in iter_nodes(tree) if n[0] == "loop" and n[1] == lid), None)
+        if node is None or li.get("kind") != "for" or li.get("conds"):
+            return None
+        inner = list(iter_nodes(node[2]))
+        rets = [(n, c) for n, c in inner if n[0] == "return" and not any(x[0] == "call" for x in c)]
+        others = [n for n, c in inner if n[0] in ("mutate", "setattr", "setitem", "break", "raise", "yield", "extcall", "dyncall")]
+        if len(rets) != 1 or others or rets[0][0][1] != TRUE:
+            return None
+        gs = guards_in_ctx(rets[0][1])
+        if len(gs) != 1:
+            return None
+        pred = gs[0][0] if gs[0][1] else mk_not(gs[0][0])
+        return li.get("iter"), lid, pred
+    return None
